@@ -84,3 +84,17 @@ prop("C08",
           "non-trivial: a peer authenticated and at least one access decision was taken; distinct by trace hash",
      nontrivial=[["authenticated", "setcall_unauthorized"], ["authenticated", "setcall_authorized"], ["authenticated", "notify_add"], ["wrong_password_or_user", "notify_add"]],
      required_probes=["authenticated", "wrong_password_or_user", "reauth_other_user", "reauth_same_user", "authenticate_after_fetch", "setcall_unauthorized", "setcall_authorized", "accepted:ws", "accepted:uds"])
+
+prop("C16",
+     mix=[("c16", "default", 3), ("c16", "small", 2), ("c16", "batch1", 0.5)],
+     quick_mix=[("c16", "default", 2), ("c16", "small", 1)],
+     quick_s=25, thorough_s=600,
+     rule="seeded rule objects (every subset and order of the six matchers, caseInsensitive true/false/absent/mistyped/repeated, operands built around the live paths: empty, equal, proper prefixes, suffixes and infixes, case variants, "
+          "non-ASCII, longer than the path; refused shapes: unknown and case-variant names, wrongly typed operands, more than the maximum, no matcher) pushed through all three evaluation sites of the simulated daemon - fetch after the "
+          "elements exist, elements added after the fetch, and get - by several peers with random segmentation and batching; the reference matcher decides every notification and get result. "
+          "non-trivial: a rule with at least one matcher was evaluated (fetch or get) against existing elements; distinct by trace hash",
+     nontrivial=[["matcher:equals:cs", "notify_add"], ["matcher:contains:cs", "notify_add"], ["matcher:startsWith:cs", "notify_add"], ["matcher:endsWith:cs", "notify_add"], ["matcher:equalsNot:cs", "notify_add"], ["matcher:containsAllOf:cs", "notify_add"],
+                 ["matcher:equals:ci"], ["matcher:contains:ci"], ["matcher:startsWith:ci"], ["matcher:endsWith:ci"], ["matcher:equalsNot:ci"], ["matcher:containsAllOf:ci"], ["get_with_rule"]],
+     required_probes=["matcher:equals:cs", "matcher:equalsNot:cs", "matcher:startsWith:cs", "matcher:endsWith:cs", "matcher:contains:cs", "matcher:containsAllOf:cs",
+                      "matcher:equals:ci", "matcher:equalsNot:ci", "matcher:startsWith:ci", "matcher:endsWith:ci", "matcher:contains:ci", "matcher:containsAllOf:ci",
+                      "rule_refused", "get_rule_refused", "get_with_rule", "repeated_option_key", "add_then_fetch", "notify_add", "get_selected>=2"])
